@@ -48,12 +48,13 @@ fn reference_scan(d: Dialect, tpl: &str) -> Result<Vec<Seg>, String> {
             continue;
         }
         if c == mark {
-            if i + 1 < cs.len() && cs[i + 1] == mark {
+            let in_word = d == Dialect::Postgres && i > 0 && (cs[i - 1].is_alphanumeric() || cs[i - 1] == '_') && !cur.is_empty() && cur.ends_with(cs[i - 1]);
+            if !in_word && i + 1 < cs.len() && cs[i + 1] == mark {
                 cur.push(mark);
                 i += 2;
                 continue;
             }
-            if d == Dialect::Postgres && i > 0 && (cs[i - 1].is_alphanumeric() || cs[i - 1] == '_') && !cur.is_empty() && cur.ends_with(cs[i - 1]) {
+            if in_word {
                 // Postgres identifiers may contain `$` after their first character (letters include non-ASCII
                 // ones): `café$1` is one word, not a word followed by a placeholder
                 cur.push(c);
@@ -482,6 +483,10 @@ pub fn check(ctx: &Ctx, rep: &mut Report) {
                     t.push_str(*rng.pick(&["abc$1", "caf\u{e9}$1", "ma\u{df}_$2", "x1$1$2"]));
                     t.push(' ');
                     labels.push("word-containing-dollar-digits");
+                } else if *k == NPIECES && d == Dialect::Postgres {
+                    // two doubled marks side by side: two literal `$` (a dollar-quote opener in the built text)
+                    t.push_str(" $$$$q$$$$ ");
+                    labels.push("adjacent-doubled-marks");
                 } else if *k == NPIECES {
                     // bracket piece: SQLite quoted identifier / Postgres subscript with a placeholder
                     match d {
